@@ -111,6 +111,7 @@ Definition w_mem_ := [109;101;109].
 Definition w_xinit := [120;105;110;105;116].
 Definition w_xreads := [120;114;101;97;100;115].
 Definition w_xclear := [120;99;108;101;97;114].
+Definition w_xgrouploc := [120;103;114;111;117;112;108;111;99].
 Definition w_xreadf := [120;114;101;97;100;102].
 Definition w_xwritef := [120;119;114;105;116;101;102].
 
@@ -332,6 +333,7 @@ Definition run_line (w : world) (ln : bytes) : world * list bytes * bool :=
             (mkW_ (set_chook (set_dtor (w_cfg w) true) (Some WRAPPER)) (w_fs w) (w_dev w) (w_loc w),
              [[82;32;117;110;105;116]], false)
           else if is_w cmd w_xclear then run_line_c w w_clear        (* Config::clear() is config_clear() *)
+          else if is_w cmd w_xgrouploc then (w, [[82;32;117;110;105;116]], false)   (* a global C++ locale: no effect on the library *)
           else run_line_c w ln
       | [cmd; a] =>
           if is_w cmd w_xreads then x_io (run_line_c w (w_reads ++ [32] ++ a))
